@@ -5,6 +5,7 @@ package main
 // the process at a chosen statement index.
 
 import (
+	"time"
 	"context"
 	"database/sql"
 	"database/sql/driver"
@@ -34,6 +35,9 @@ type SQLWrap struct {
 	FailAt  map[int]bool // fail statement n once with an injected error
 	KillAt  int          // SIGKILL self right before statement n (0 = off)
 	KillFile string      // written (statement description) just before the kill
+	KillCommit int       // SIGKILL self right before the k-th COMMIT (0 = off)
+	CommitDelay time.Duration // pause right before every COMMIT is executed (widens the window between "about to commit" and "committed")
+	commits  int
 }
 
 var Wrap = &SQLWrap{FailAt: map[int]bool{}}
@@ -109,12 +113,22 @@ func (w *SQLWrap) before(kind, q string) error {
 		w.Log = append(w.Log, StmtLog{N: n, Kind: kind, SQL: s, Site: site, Path: path})
 	}
 	kill := w.KillAt != 0 && n == w.KillAt
+	if kind == "commit" {
+		w.commits++
+		if w.KillCommit != 0 && w.commits == w.KillCommit {
+			kill = true
+		}
+	}
 	fail := w.FailAt[n]
 	if fail {
 		delete(w.FailAt, n)
 	}
 	kf := w.KillFile
+	delay := w.CommitDelay
 	w.mu.Unlock()
+	if kind == "commit" && delay > 0 {
+		time.Sleep(delay)
+	}
 	if kill {
 		if kf != "" {
 			os.WriteFile(kf, []byte(fmt.Sprintf("%d %s %s\n", n, kind, strings.Join(strings.Fields(q), " "))), 0644)
